@@ -310,7 +310,20 @@ static void chan_create(int id)
 		fd[1] = fd[0];
 		break;
 	case 3:	/* dead descriptor number: one that was open a moment ago, so that it will be handed out again */
-		if (PL->seed & 4) {
+		{
+			int t, nloops = 0;
+			for (t = 0; t < PL->nthr; t++)
+				if (PL->thr[t].kind == 'L')
+					nloops++;
+			/* only with a single loop thread: otherwise another thread's library descriptor could take
+			 * the number while the registration attempt is in progress, and the harness would register
+			 * somebody else's descriptor (an application bug, not a library one) */
+			if (nloops != 1 || !(PL->seed & 4)) {
+				fd[0] = fd[1] = 1000 + id;
+				break;
+			}
+		}
+		{
 			int p2[2];
 			if (pipe(p2) == 0) {
 				raw_close(p2[0]);
